@@ -3,6 +3,7 @@
 // table: count, byte address, symbol (the last FUNC/PROC at or below the address), offset, mnemonic, operand nibble.
 //   usage: c15_native <seed> <n-programs>
 #include <cstdlib>
+#include <algorithm>
 #include <cstdio>
 #include <cstdint>
 #include <cstring>
@@ -26,9 +27,12 @@ static std::string gen(std::mt19937_64 &rng, int &nprocs) {
   // main calls them in a random order, then exits 0.
   std::ostringstream o;
   nprocs = 1 + rng() % 5;
+  // names whose alphabetical order is unrelated to the layout order (a table keyed or sorted by name must not pass)
+  static const char *POOL[] = {"zeta", "alpha", "mid", "p10", "p2", "Beta9", "kilo", "a", "zz", "main_"};
+  std::vector<std::string> name; { std::vector<int> perm(10); for (int i = 0; i < 10; i++) perm[i] = i; for (int i = 9; i > 0; i--) std::swap(perm[i], perm[rng() % (i + 1)]); for (int p = 0; p < nprocs; p++) name.push_back(POOL[perm[p]]); }
   o << "BR start\nDATA 1000\n";
   for (int p = 0; p < nprocs; p++) {
-    o << ((rng() & 1) ? "FUNC" : "PROC") << " p" << p << "\n";
+    o << ((rng() & 1) ? "FUNC" : "PROC") << " " << name[p] << "\n";
     int body = rng() % 6; for (int i = 0; i < body; i++) o << "LDAC " << (rng() % 300) << "\n";
     if (rng() % 3 == 0) for (int i = 0; i < (int)(rng() % 20); i++) o << "LDAC 0\n";
     // return: pc = breg -- or fall through into the next procedure (its entry is then reached from the instruction
@@ -39,7 +43,7 @@ static std::string gen(std::mt19937_64 &rng, int &nprocs) {
   int calls = 1 + rng() % 6;
   for (int c = 0; c < calls; c++) { int p = rng() % nprocs; o << "LDAP ret" << c << "\nLDBC 0\nOPR ADD\nLDBC 0\n" << "LDAP ret" << c << "\n"; 
     // breg <- return address: LDAP into areg, move to breg via store/load on the stack word
-    o << "LDBM 1\nSTAI 5\nLDBM 1\nLDBI 5\nBR p" << p << "\nret" << c << "\n"; }
+    o << "LDBM 1\nSTAI 5\nLDBM 1\nLDBI 5\nBR " << name[p] << "\nret" << c << "\n"; }
   o << "LDBM 1\nLDAC 0\nSTAI 2\nLDAC 0\nOPR SVC\n";
   return o.str();
 }
